@@ -46,7 +46,7 @@ PROPS = {
     ], layers={"quick": ["c04-add", "c04-weightcmd", "c04-sched"], "thorough": ["c04-add", "c04-weightcmd", "c04-sched"]}),
     "C05": dict(level="model_checking", engine="xstate",
         technique="explicit-state BFS over route-command scripts with a reference interpreter; each transition rebuilds the real table with NewTable and compares",
-        level_text="All reachable reference states of a 18-command alphabet (add/del/weight in every documented form, hosts in mixed case, tags, opts, weights) are explored breadth-first (quick: depth 5 with state de-duplication; thorough: until the frontier empties); every transition is executed on the real parser + table and compared field by field with an independent interpreter; every state round-trips through Parse(Table.String()).",
+        level_text="All reachable reference states of a 19-command alphabet (add/del/weight in every documented form, hosts in mixed case, tags, opts, weights) are explored breadth-first (quick: depth 5 with state de-duplication; thorough: until the frontier empties); every transition is executed on the real parser + table and compared field by field with an independent interpreter; every state round-trips through Parse(Table.String()).",
         level_note="The reference interpreter is the trusted statement of the documented semantics. State merging is by the canonical reference table; it is sound because each transition checks that the real table equals that canonical form, so merged states have equal real tables. Effective-weight round trip tolerance 5e-4.",
         units=[
         unit("c05", "route", ROUTE_COMMON + ["route/c05_test.go"], "^TestVerifC05"),
